@@ -60,10 +60,36 @@ pub struct Entry {
     pub svcs: u8,
 }
 
+/// A value an operation needs; `WaitFor` blocks (harness-level wait) until it exists, its
+/// producer failed, or the driver cancels all such waits at the end of the program.
+#[derive(Debug, Clone, Copy, PartialEq, Eq, PartialOrd, Ord)]
+pub enum Res {
+    Obj(u8),
+    Svc(u8),
+    Proxy(u8),
+    Snd(u8),
+    Rcv(u8),
+    /// established sender / receiver in channel slot ch
+    SndEst(u8),
+    RcvEst(u8),
+    Lis(u8),
+    Disc(u8),
+    Scope(u8),
+    Lt(u8),
+    /// service published by (client, slot)
+    BoardSvc(u8, u8),
+    /// k-th unbound sender (0) / receiver (1)
+    Unbound(u8, u8),
+    /// k-th published lifetime id
+    BoardScope(u8),
+}
+
 #[derive(Debug, Clone, PartialEq, Eq)]
 pub enum Op {
     /// wait for the driver to open the next phase (it does so at quiescence)
     Barrier,
+    /// wait until a value produced by another task exists
+    WaitFor(Res),
     Yield(u8),
     SyncClient,
     SyncBroker,
@@ -163,10 +189,21 @@ pub struct Program {
     pub idle_early: bool,
     /// refused channel claims (second claimant, claim of a dead channel) may be generated
     pub allow_refused_claims: bool,
+    /// pending replies may be dropped while their client is shutting down
+    pub allow_late_abort: bool,
+    /// a bus listener may be polled after `destroy()`
+    pub allow_listener_after_destroy: bool,
 }
 
 // ---------------------------------------------------------------------------------------------
 // decoder
+//
+// The op stream is built from *fragments*: short idioms (service with its server loop, a batch of
+// calls through a proxy, subscribe/emit/consume, a channel hand-over with producer and consumer,
+// listener/discoverer/lifetime life cycles, tear-downs) whose operations are spread over the tasks
+// of the clients involved. Operations whose operand does not exist yet wait for it (harness-level
+// wait, see interp.rs), so a fragment's data flow orders its operations while everything else
+// races under the schedule.
 
 #[derive(Clone, Copy, PartialEq, Eq, Debug)]
 enum GEnd {
@@ -178,10 +215,10 @@ enum GEnd {
 
 #[derive(Clone)]
 struct GClient {
+    tasks: Vec<usize>,
     obj: [bool; NOBJ],
     svc: [bool; NSVC],
-    served: [bool; NSVC],
-    proxy: [bool; NPROXY],
+    proxy: [Option<(u8, u8)>; NPROXY],
     stash: usize,
     held: usize,
     snd: [GEnd; NCH],
@@ -191,23 +228,28 @@ struct GClient {
     scope: [bool; NSCOPE],
     lt: [bool; NLT],
     extra: usize,
-    proto: Proto,
 }
 
 struct Gen<'a, 'b> {
     t: &'a mut Tape<'b>,
     cl: Vec<GClient>,
+    tasks: Vec<TaskProg>,
+    parked: Vec<bool>,
     /// published services (client, slot)
     pub_svcs: Vec<(u8, u8)>,
     unbound: [usize; 2],
     scopes: usize,
+    total: usize,
+    /// which task produces a resource (client index, or usize::MAX for the shared board)
+    producer: std::collections::BTreeMap<(usize, Res), usize>,
+    allow: Allow,
 }
 
 pub fn decode_header(t: &mut Tape) -> (u64, u64, u8, Vec<ClientSpec>, bool) {
     let det_seed = t.u32() as u64;
     let sched_seed = t.u32() as u64;
     let policy = t.u8();
-    let n_clients = 1 + t.weighted(&[40, 90, 80, 46]);
+    let n_clients = 1 + t.weighted(&[30, 100, 80, 46]);
     let mut clients = vec![];
     for _ in 0..n_clients {
         let proto = if t.weighted(&[3, 1]) == 0 { Proto::V20 } else { Proto::V14 };
@@ -221,7 +263,7 @@ pub fn decode_header(t: &mut Tape) -> (u64, u64, u8, Vec<ClientSpec>, bool) {
                 _ => t.range(6, 16),
             })
         };
-        let tasks = 1 + t.weighted(&[2, 3, 2]);
+        let tasks = 1 + t.weighted(&[2, 4, 3]);
         let final_mode = if t.weighted(&[3, 2]) == 0 { FinalMode::Shutdown } else { FinalMode::DropAll };
         clients.push(ClientSpec { proto, tkind, tasks, final_mode });
     }
@@ -229,22 +271,30 @@ pub fn decode_header(t: &mut Tape) -> (u64, u64, u8, Vec<ClientSpec>, bool) {
     (det_seed, sched_seed, policy, clients, idle_early)
 }
 
-pub fn decode_program(tape: &[u8], allow_refused_claims: bool, max_ops: usize) -> Program {
+/// Which known-defect triggers a case class may contain.
+#[derive(Debug, Clone, Copy, Default, PartialEq, Eq)]
+pub struct Allow {
+    pub refused_claims: bool,
+    pub late_abort: bool,
+    pub listener_after_destroy: bool,
+}
+
+pub fn decode_program(tape: &[u8], allow: Allow, max_ops: usize) -> Program {
     let mut t = Tape::new(tape);
     let (det_seed, sched_seed, policy, clients, idle_early) = decode_header(&mut t);
     let mut tasks: Vec<TaskProg> = vec![];
+    let mut cl = vec![];
     for (ci, c) in clients.iter().enumerate() {
+        let mut mine = vec![];
         for _ in 0..c.tasks {
+            mine.push(tasks.len());
             tasks.push(TaskProg { client: ci, ops: vec![] });
         }
-    }
-    let cl = clients
-        .iter()
-        .map(|c| GClient {
+        cl.push(GClient {
+            tasks: mine,
             obj: [false; NOBJ],
             svc: [false; NSVC],
-            served: [false; NSVC],
-            proxy: [false; NPROXY],
+            proxy: [None; NPROXY],
             stash: 0,
             held: 0,
             snd: [GEnd::None; NCH],
@@ -254,41 +304,28 @@ pub fn decode_program(tape: &[u8], allow_refused_claims: bool, max_ops: usize) -
             scope: [false; NSCOPE],
             lt: [false; NLT],
             extra: 0,
-            proto: c.proto,
-        })
-        .collect();
-    let mut g = Gen { t: &mut t, cl, pub_svcs: vec![], unbound: [0, 0], scopes: 0 };
-    let mut parked = vec![false; tasks.len()];
-    let mut total = 0;
-    while total < max_ops {
+        });
+    }
+    let n = tasks.len();
+    let mut g = Gen { t: &mut t, cl, tasks, parked: vec![false; n], pub_svcs: vec![], unbound: [0, 0], scopes: 0, total: 0, producer: Default::default(), allow };
+    while g.total < max_ops {
         let b = g.t.u8();
         if b == 0 {
             break;
         }
-        let mut ti = (b as usize - 1) % tasks.len();
-        // prefer a task that is not parked in an endless stream operation
-        for _ in 0..tasks.len() {
-            if !parked[ti] {
-                break;
-            }
-            ti = (ti + 1) % tasks.len();
-        }
-        let ci = tasks[ti].client;
-        let op = g.op(ci, allow_refused_claims);
-        if op == Op::Barrier {
-            for tp in tasks.iter_mut() {
-                tp.ops.push(Op::Barrier);
-            }
-            total += 1;
-            continue;
-        }
-        if matches!(op, Op::Serve { n: 0, .. } | Op::WaitForObject { .. } | Op::LifetimeEnded { .. }) {
-            parked[ti] = true;
-        }
-        tasks[ti].ops.push(op);
-        total += 1;
+        g.fragment(b);
     }
-    Program { det_seed, sched_seed, policy, clients, tasks, idle_early, allow_refused_claims }
+    Program {
+        det_seed,
+        sched_seed,
+        policy,
+        clients,
+        tasks: g.tasks,
+        idle_early,
+        allow_refused_claims: allow.refused_claims,
+        allow_late_abort: allow.late_abort,
+        allow_listener_after_destroy: allow.listener_after_destroy,
+    }
 }
 
 fn pick_true(t: &mut Tape, flags: &[bool]) -> Option<u8> {
@@ -300,7 +337,140 @@ fn pick_true(t: &mut Tape, flags: &[bool]) -> Option<u8> {
     }
 }
 
+pub const BOARD: usize = usize::MAX;
+
+fn end_res(end: End, ch: u8) -> Res {
+    match end {
+        End::Snd => Res::Snd(ch),
+        End::Rcv => Res::Rcv(ch),
+    }
+}
+
+/// Resources an operation needs: (client scope or BOARD, resource).
+pub fn needs(ci: usize, op: &Op) -> Vec<(usize, Res)> {
+    match op {
+        Op::DestroyObject { o } | Op::DropObject { o } => vec![(ci, Res::Obj(*o))],
+        Op::CreateService { o, .. } => vec![(ci, Res::Obj(*o))],
+        Op::DestroyService { s } | Op::DropService { s } | Op::Serve { s, .. } | Op::Emit { s, .. } => vec![(ci, Res::Svc(*s))],
+        Op::CreateProxy { c, s, .. } => vec![(BOARD, Res::BoardSvc(*c, *s))],
+        Op::DropProxy { p }
+        | Op::Call { p, .. }
+        | Op::Subscribe { p, .. }
+        | Op::Unsubscribe { p, .. }
+        | Op::SubscribeAll { p }
+        | Op::UnsubscribeAll { p }
+        | Op::NextEvent { p, .. } => vec![(ci, Res::Proxy(*p))],
+        Op::Unbind { ch, end } | Op::Claim { ch, end, .. } | Op::Establish { ch, end } | Op::CloseEnd { ch, end } | Op::DropEnd { ch, end } => vec![(ci, end_res(*end, *ch))],
+        Op::Bind { end, k, .. } => vec![(BOARD, Res::Unbound(*end as u8, *k))],
+        Op::Send { ch, .. } => vec![(ci, Res::SndEst(*ch))],
+        Op::Recv { ch, .. } => vec![(ci, Res::RcvEst(*ch))],
+        Op::AddFilter { l, .. }
+        | Op::RemoveFilter { l, .. }
+        | Op::ClearFilters { l }
+        | Op::StartListener { l, .. }
+        | Op::StopListener { l }
+        | Op::ListenerNext { l, .. }
+        | Op::DestroyListener { l }
+        | Op::DropListener { l } => vec![(ci, Res::Lis(*l))],
+        Op::DiscNext { d, .. } | Op::RestartDiscoverer { d, .. } | Op::DropDiscoverer { d } => vec![(ci, Res::Disc(*d))],
+        Op::EndScope { sc } | Op::DropScope { sc } => vec![(ci, Res::Scope(*sc))],
+        Op::CreateLifetime { k, .. } => vec![(BOARD, Res::BoardScope(*k))],
+        Op::LifetimeEnded { lt } | Op::DropLifetime { lt } => vec![(ci, Res::Lt(*lt))],
+        _ => vec![],
+    }
+}
+
+fn est_res(end: End, ch: u8) -> Res {
+    match end {
+        End::Snd => Res::SndEst(ch),
+        End::Rcv => Res::RcvEst(ch),
+    }
+}
+
+pub fn produces(ci: usize, op: &Op, unbound: &[usize; 2], scopes: usize) -> Vec<(usize, Res)> {
+    match op {
+        Op::CreateObject { o, .. } => vec![(ci, Res::Obj(*o))],
+        Op::CreateService { s, .. } => vec![(ci, Res::Svc(*s)), (BOARD, Res::BoardSvc(ci as u8, *s))],
+        Op::CreateProxy { p, .. } => vec![(ci, Res::Proxy(*p))],
+        Op::CreateChannel { ch, .. } => vec![(ci, Res::Snd(*ch)), (ci, Res::Rcv(*ch))],
+        Op::Unbind { end, .. } => vec![(BOARD, Res::Unbound(*end as u8, unbound[*end as usize] as u8))],
+        Op::Bind { ch, end, .. } => vec![(ci, end_res(*end, *ch))],
+        Op::Claim { ch, end, .. } | Op::Establish { ch, end } => vec![(ci, est_res(*end, *ch))],
+        Op::CreateListener { l } => vec![(ci, Res::Lis(*l))],
+        Op::CreateDiscoverer { d, .. } => vec![(ci, Res::Disc(*d))],
+        Op::CreateScope { sc } => vec![(ci, Res::Scope(*sc)), (BOARD, Res::BoardScope(scopes as u8))],
+        Op::CreateLifetime { lt, .. } => vec![(ci, Res::Lt(*lt))],
+        _ => vec![],
+    }
+}
+
+fn other(e: End) -> End {
+    match e {
+        End::Snd => End::Rcv,
+        End::Rcv => End::Snd,
+    }
+}
+
 impl Gen<'_, '_> {
+    fn push(&mut self, task: usize, op: Op) {
+        let ci = self.tasks[task].client;
+        for (scope, res) in needs(ci, &op) {
+            if let Some(tp) = self.producer.get(&(scope, res)) {
+                if *tp != task && self.tasks[task].ops.last() != Some(&Op::WaitFor(res)) {
+                    self.tasks[task].ops.push(Op::WaitFor(res));
+                }
+            }
+        }
+        for (scope, res) in produces(ci, &op, &self.unbound, self.scopes) {
+            self.producer.insert((scope, res), task);
+        }
+        if matches!(op, Op::Serve { n: 0, .. } | Op::WaitForObject { .. } | Op::LifetimeEnded { .. }) {
+            self.parked[task] = true;
+        }
+        self.tasks[task].ops.push(op);
+        self.total += 1;
+    }
+
+    fn client(&mut self) -> usize {
+        self.t.below(self.cl.len())
+    }
+
+    /// Another client if there is one.
+    fn client_other_than(&mut self, a: usize) -> usize {
+        if self.cl.len() == 1 {
+            return a;
+        }
+        let k = self.t.below(self.cl.len() - 1);
+        if k >= a {
+            k + 1
+        } else {
+            k
+        }
+    }
+
+    /// A task of client `ci`, preferably one that is not parked in an endless wait.
+    fn task(&mut self, ci: usize) -> usize {
+        let ts = self.cl[ci].tasks.clone();
+        let mut k = self.t.below(ts.len());
+        for _ in 0..ts.len() {
+            if !self.parked[ts[k]] {
+                break;
+            }
+            k = (k + 1) % ts.len();
+        }
+        ts[k]
+    }
+
+    /// A task of `ci` different from `not` if possible.
+    fn task_other(&mut self, ci: usize, not: usize) -> usize {
+        let ts: Vec<usize> = self.cl[ci].tasks.iter().copied().filter(|t| *t != not && !self.parked[*t]).collect();
+        if ts.is_empty() {
+            not
+        } else {
+            ts[self.t.below(ts.len())]
+        }
+    }
+
     fn end(&mut self) -> End {
         if self.t.bool() {
             End::Rcv
@@ -327,216 +497,305 @@ impl Gen<'_, '_> {
         }
     }
 
-    fn create_object(&mut self, ci: usize) -> Op {
-        let o = self.t.below(NOBJ) as u8;
-        let u = self.t.below(OBJ_POOL) as u8;
-        self.cl[ci].obj[o as usize] = true;
-        Op::CreateObject { o, u }
+    fn fragment(&mut self, b: u8) {
+        // classes that may contain the trigger of a known defect aim at it part of the time
+        if self.allow.late_abort && b % 4 == 0 {
+            return self.frag_late_abort();
+        }
+        if self.allow.listener_after_destroy && b % 4 == 0 {
+            return self.frag_listener_after_destroy();
+        }
+        if self.allow.refused_claims && b % 6 == 0 {
+            return self.frag_refused_claim();
+        }
+        // the first byte doubles as fragment selector (1..=255)
+        let x = ((b as usize - 1) * 110) / 255;
+        let bounds = [18, 42, 52, 64, 82, 90, 96, 100, 105, 108, 111];
+        let k = bounds.iter().position(|hi| x < *hi).unwrap_or(10);
+        match k {
+            0 => self.frag_service(),
+            1 => self.frag_calls(),
+            2 => self.frag_events(),
+            3 => self.frag_teardown(),
+            4 => self.frag_channel(),
+            5 => self.frag_listener(),
+            6 => self.frag_discovery(),
+            7 => self.frag_lifetime(),
+            8 => self.frag_misc(),
+            9 => {
+                for i in 0..self.tasks.len() {
+                    self.tasks[i].ops.push(Op::Barrier);
+                }
+                self.total += 1;
+            }
+            _ => self.frag_noise(),
+        }
     }
 
-    fn create_service(&mut self, ci: usize) -> Op {
-        let Some(o) = pick_true(self.t, &self.cl[ci].obj.clone()) else {
-            return self.create_object(ci);
+    // ---- services ---------------------------------------------------------------------------
+
+    fn frag_service(&mut self) {
+        let a = self.client();
+        let ta = self.task(a);
+        let have = pick_true(self.t, &self.cl[a].obj.clone());
+        let o = match have {
+            Some(o) if self.t.weighted(&[2, 1]) == 0 => o,
+            _ => {
+                let o = self.t.below(NOBJ) as u8;
+                let u = self.t.below(OBJ_POOL) as u8;
+                self.cl[a].obj[o as usize] = true;
+                self.push(ta, Op::CreateObject { o, u });
+                o
+            }
         };
         let s = self.t.below(NSVC) as u8;
         let u = self.t.below(SVC_POOL) as u8;
         let ver = self.t.below(3) as u8;
-        self.cl[ci].svc[s as usize] = true;
-        self.cl[ci].served[s as usize] = false;
-        if !self.pub_svcs.contains(&(ci as u8, s)) {
-            self.pub_svcs.push((ci as u8, s));
+        self.cl[a].svc[s as usize] = true;
+        if !self.pub_svcs.contains(&(a as u8, s)) {
+            self.pub_svcs.push((a as u8, s));
         }
-        Op::CreateService { o, s, u, ver }
-    }
-
-    fn serve(&mut self, ci: usize, s: u8) -> Op {
-        self.cl[ci].served[s as usize] = true;
-        let n = match self.t.weighted(&[3, 2]) {
-            0 => 0,
-            _ => 1 + self.t.below(3) as u8,
-        };
-        let script = if self.t.bool() { self.t.u32() & 0x00ff_ffff } else { 0 };
-        if script != 0 {
-            self.cl[ci].held += 1;
-        }
-        Op::Serve { s, n, script }
-    }
-
-    fn create_proxy(&mut self, ci: usize) -> Op {
-        if self.pub_svcs.is_empty() {
-            return self.create_service(ci);
-        }
-        let (c, s) = self.pub_svcs[self.t.below(self.pub_svcs.len())];
-        let p = self.t.below(NPROXY) as u8;
-        self.cl[ci].proxy[p as usize] = true;
-        Op::CreateProxy { p, c, s }
-    }
-
-    fn op(&mut self, ci: usize, allow_refused: bool) -> Op {
-        let cat = self.t.weighted(&[18, 24, 8, 24, 9, 8, 8, 5]);
-        match cat {
-            0 => self.objsvc(ci),
-            1 => self.calls(ci),
-            2 => self.events(ci),
-            3 => self.channels(ci, allow_refused),
-            4 => self.listeners(ci),
-            5 => self.discovery(ci),
-            6 => self.misc(ci),
-            _ => Op::Barrier,
-        }
-    }
-
-    fn objsvc(&mut self, ci: usize) -> Op {
-        // an unserved service gets its server loop first
-        let unserved: Vec<u8> = (0..NSVC).filter(|&s| self.cl[ci].svc[s] && !self.cl[ci].served[s]).map(|s| s as u8).collect();
-        match self.t.weighted(&[20, 25, 25, 6, 8, 6, 10, 4]) {
-            0 => self.create_object(ci),
-            1 => self.create_service(ci),
-            2 => {
-                if unserved.is_empty() {
-                    self.create_service(ci)
-                } else {
-                    let s = unserved[self.t.below(unserved.len())];
-                    self.serve(ci, s)
-                }
+        self.push(ta, Op::CreateService { o, s, u, ver });
+        match self.t.weighted(&[7, 2, 1]) {
+            0 => {
+                let tb = self.task_other(a, ta);
+                let n = if tb != ta && self.t.weighted(&[3, 1]) == 0 { 0 } else { 1 + self.t.below(3) as u8 };
+                let script = self.script();
+                self.push(tb, Op::Serve { s, n, script });
             }
-            3 => match pick_true(self.t, &self.cl[ci].obj.clone()) {
-                Some(o) => Op::DestroyObject { o },
-                None => self.create_object(ci),
-            },
-            4 => match pick_true(self.t, &self.cl[ci].obj.clone()) {
-                Some(o) => {
-                    self.cl[ci].obj[o as usize] = false;
-                    Op::DropObject { o }
-                }
-                None => self.create_object(ci),
-            },
-            5 => match pick_true(self.t, &self.cl[ci].svc.clone()) {
-                Some(s) => Op::DestroyService { s },
-                None => self.create_service(ci),
-            },
-            6 => match pick_true(self.t, &self.cl[ci].svc.clone()) {
-                Some(s) => {
-                    self.cl[ci].svc[s as usize] = false;
-                    Op::DropService { s }
-                }
-                None => self.create_service(ci),
-            },
+            1 => {
+                let n = 1 + self.t.below(2) as u8;
+                let script = self.script();
+                self.push(ta, Op::Serve { s, n, script });
+            }
+            _ => {}
+        }
+    }
+
+    fn script(&mut self) -> u32 {
+        if self.t.weighted(&[3, 2]) == 0 {
+            0
+        } else {
+            self.t.u32() & 0x00ff_ffff
+        }
+    }
+
+    fn call_mode(&mut self, b: usize) -> CallMode {
+        match self.t.weighted(&[6, 2, 2]) {
+            0 => CallMode::Await,
+            1 => CallMode::Abort,
             _ => {
-                if self.cl[ci].held > 0 {
-                    Op::ReleaseHeld { ok: self.t.bool() }
-                } else {
-                    self.create_service(ci)
-                }
+                self.cl[b].stash += 1;
+                CallMode::Stash
             }
         }
     }
 
-    fn calls(&mut self, ci: usize) -> Op {
-        let proxies = self.cl[ci].proxy;
-        match self.t.weighted(&[22, 50, 8, 8, 12]) {
-            0 => self.create_proxy(ci),
-            1 => match pick_true(self.t, &proxies) {
-                Some(p) => {
-                    let f = self.t.below(4) as u8;
-                    let mode = match self.t.weighted(&[5, 2, 2]) {
-                        0 => CallMode::Await,
-                        1 => CallMode::Abort,
-                        _ => {
-                            self.cl[ci].stash += 1;
-                            CallMode::Stash
-                        }
-                    };
-                    Op::Call { p, f, mode }
+    /// A proxy slot of client b that targets a published service; creates the proxy if needed.
+    fn proxy_for(&mut self, b: usize, tb: usize) -> Option<(u8, (u8, u8))> {
+        if self.pub_svcs.is_empty() {
+            return None;
+        }
+        let target = self.pub_svcs[self.pub_svcs.len() - 1 - self.t.below(self.pub_svcs.len())];
+        let existing = self.cl[b].proxy.iter().position(|p| *p == Some(target));
+        match existing {
+            Some(p) if self.t.weighted(&[3, 1]) == 0 => Some((p as u8, target)),
+            _ => {
+                let p = self.t.below(NPROXY) as u8;
+                self.cl[b].proxy[p as usize] = Some(target);
+                self.push(tb, Op::CreateProxy { p, c: target.0, s: target.1 });
+                Some((p, target))
+            }
+        }
+    }
+
+    fn frag_calls(&mut self) {
+        if self.pub_svcs.is_empty() {
+            return self.frag_service();
+        }
+        let b = self.client();
+        let tb = self.task(b);
+        let Some((p, _)) = self.proxy_for(b, tb) else { return };
+        let k = 1 + self.t.below(4);
+        for _ in 0..k {
+            let f = self.t.below(4) as u8;
+            let mode = self.call_mode(b);
+            self.push(tb, Op::Call { p, f, mode });
+        }
+        while self.cl[b].stash > 0 && self.t.weighted(&[1, 2]) == 1 {
+            self.cl[b].stash -= 1;
+            let op = if self.t.weighted(&[2, 1]) == 0 { Op::AwaitReply } else { Op::DropReply };
+            let t2 = if self.t.bool() { self.task(b) } else { tb };
+            self.push(t2, op);
+        }
+        if self.t.chance(50) {
+            let t2 = if self.t.bool() { self.task(b) } else { tb };
+            self.cl[b].proxy[p as usize] = None;
+            self.push(t2, Op::DropProxy { p });
+        }
+    }
+
+    fn frag_events(&mut self) {
+        if self.pub_svcs.is_empty() {
+            return self.frag_service();
+        }
+        let b = self.client();
+        let tb = self.task(b);
+        let Some((p, (a, s))) = self.proxy_for(b, tb) else { return };
+        let ev = self.t.below(EVENTS.len()) as u8;
+        match self.t.weighted(&[5, 2]) {
+            0 => self.push(tb, Op::Subscribe { p, ev }),
+            _ => self.push(tb, Op::SubscribeAll { p }),
+        }
+        if self.t.weighted(&[1, 1]) == 1 {
+            self.push(tb, Op::SyncBroker);
+        }
+        let ta = self.task(a as usize);
+        let k = 1 + self.t.below(4);
+        for _ in 0..k {
+            let e = if self.t.weighted(&[3, 1]) == 0 { ev } else { self.t.below(EVENTS.len()) as u8 };
+            self.push(ta, Op::Emit { s, ev: e });
+        }
+        let wait = self.t.weighted(&[2, 1]) == 1;
+        let n = 1 + self.t.below(k) as u8;
+        let t2 = if self.t.bool() { self.task(b) } else { tb };
+        self.push(t2, Op::NextEvent { p, n, wait });
+        match self.t.weighted(&[4, 1, 1, 1]) {
+            0 => {}
+            1 => self.push(tb, Op::Unsubscribe { p, ev }),
+            2 => self.push(tb, Op::UnsubscribeAll { p }),
+            _ => {
+                self.cl[b].proxy[p as usize] = None;
+                self.push(tb, Op::DropProxy { p });
+            }
+        }
+    }
+
+    fn frag_teardown(&mut self) {
+        let a = self.client();
+        let ta = self.task(a);
+        let objs = self.cl[a].obj;
+        let svcs = self.cl[a].svc;
+        let proxies: Vec<bool> = self.cl[a].proxy.iter().map(|p| p.is_some()).collect();
+        match self.t.weighted(&[25, 12, 25, 12, 14, 6, 6]) {
+            0 => {
+                if let Some(s) = pick_true(self.t, &svcs) {
+                    self.cl[a].svc[s as usize] = false;
+                    self.push(ta, Op::DropService { s });
                 }
-                None => self.create_proxy(ci),
-            },
+            }
+            1 => {
+                if let Some(s) = pick_true(self.t, &svcs) {
+                    self.push(ta, Op::DestroyService { s });
+                }
+            }
             2 => {
-                if self.cl[ci].stash > 0 {
-                    self.cl[ci].stash -= 1;
-                    Op::AwaitReply
-                } else {
-                    self.create_proxy(ci)
+                if let Some(o) = pick_true(self.t, &objs) {
+                    self.cl[a].obj[o as usize] = false;
+                    self.push(ta, Op::DropObject { o });
                 }
             }
             3 => {
-                if self.cl[ci].stash > 0 {
-                    self.cl[ci].stash -= 1;
-                    Op::DropReply
-                } else {
-                    self.create_proxy(ci)
+                if let Some(o) = pick_true(self.t, &objs) {
+                    self.push(ta, Op::DestroyObject { o });
                 }
             }
-            _ => match pick_true(self.t, &proxies) {
-                Some(p) => {
-                    self.cl[ci].proxy[p as usize] = false;
-                    Op::DropProxy { p }
+            4 => {
+                if let Some(p) = pick_true(self.t, &proxies) {
+                    self.cl[a].proxy[p as usize] = None;
+                    self.push(ta, Op::DropProxy { p });
                 }
-                None => self.create_proxy(ci),
-            },
+            }
+            5 => {
+                let ok = self.t.bool();
+                self.push(ta, Op::ReleaseHeld { ok });
+            }
+            _ => {
+                if self.cl[a].stash > 0 {
+                    self.cl[a].stash -= 1;
+                    self.push(ta, Op::DropReply);
+                }
+            }
         }
     }
 
-    fn events(&mut self, ci: usize) -> Op {
-        let proxies = self.cl[ci].proxy;
-        let ev = self.t.below(EVENTS.len()) as u8;
-        match self.t.weighted(&[30, 25, 8, 10, 7, 20]) {
-            0 => match pick_true(self.t, &self.cl[ci].svc.clone()) {
-                Some(s) => Op::Emit { s, ev },
-                None => self.create_service(ci),
-            },
-            1 => match pick_true(self.t, &proxies) {
-                Some(p) => Op::Subscribe { p, ev },
-                None => self.create_proxy(ci),
-            },
-            2 => match pick_true(self.t, &proxies) {
-                Some(p) => Op::Unsubscribe { p, ev },
-                None => self.create_proxy(ci),
-            },
-            3 => match pick_true(self.t, &proxies) {
-                Some(p) => Op::SubscribeAll { p },
-                None => self.create_proxy(ci),
-            },
-            4 => match pick_true(self.t, &proxies) {
-                Some(p) => Op::UnsubscribeAll { p },
-                None => self.create_proxy(ci),
-            },
-            _ => match pick_true(self.t, &proxies) {
-                Some(p) => Op::NextEvent { p, n: 1 + self.t.below(3) as u8, wait: self.t.bool() },
-                None => self.create_proxy(ci),
-            },
+    /// F5 trigger: a pending reply dropped while its client shuts down.
+    fn frag_late_abort(&mut self) {
+        if self.pub_svcs.is_empty() {
+            return self.frag_service();
         }
+        let b = self.client();
+        let tb = self.task(b);
+        let Some((p, _)) = self.proxy_for(b, tb) else { return };
+        let f = self.t.below(4) as u8;
+        self.push(tb, Op::Call { p, f, mode: CallMode::Stash });
+        if self.t.bool() {
+            self.push(tb, Op::SyncClient);
+        }
+        if self.t.weighted(&[2, 1]) == 0 {
+            self.push(tb, Op::Shutdown);
+        }
+        self.push(tb, Op::DropReply);
     }
 
-    fn create_channel(&mut self, ci: usize) -> Op {
-        let ch = self.t.below(NCH);
+    /// F6 trigger: a bus listener polled after destroy().
+    fn frag_listener_after_destroy(&mut self) {
+        let a = self.client();
+        let ta = self.task(a);
+        let l = self.t.below(NLIS) as u8;
+        self.push(ta, Op::CreateListener { l });
+        self.cl[a].lis[l as usize] = 1;
+        let f = self.filter();
+        self.push(ta, Op::AddFilter { l, f });
+        let scope = self.scope();
+        self.push(ta, Op::StartListener { l, scope });
+        if self.t.bool() {
+            let n = 1 + self.t.below(2) as u8;
+            self.push(ta, Op::ListenerNext { l, n, wait: false });
+        }
+        if self.t.bool() {
+            self.push(ta, Op::StopListener { l });
+        }
+        self.push(ta, Op::DestroyListener { l });
+        self.push(ta, Op::ListenerNext { l, n: 2, wait: false });
+    }
+
+    /// F2 trigger: a claim the broker refuses (second claimant, or the channel is gone).
+    fn frag_refused_claim(&mut self) {
+        let a = self.client();
+        let ta = self.task(a);
+        let ch = self.t.below(NCH) as u8;
         let claim = self.end();
+        let oth = other(claim);
         let cap = self.t.below(CAPS.len()) as u8;
-        match claim {
-            End::Snd => {
-                self.cl[ci].snd[ch] = GEnd::Pending;
-                self.cl[ci].rcv[ch] = GEnd::Unclaimed;
+        self.push(ta, Op::CreateChannel { ch, claim, cap });
+        self.set_end(a, ch, claim, GEnd::Pending);
+        if self.t.bool() {
+            // the creator closes its end, then claims the other one
+            if self.t.bool() {
+                self.push(ta, Op::CloseEnd { ch, end: claim });
+            } else {
+                self.push(ta, Op::DropEnd { ch, end: claim });
             }
-            End::Rcv => {
-                self.cl[ci].rcv[ch] = GEnd::Pending;
-                self.cl[ci].snd[ch] = GEnd::Unclaimed;
+            self.push(ta, Op::Claim { ch, end: oth, cap });
+            self.set_end(a, ch, oth, GEnd::None);
+        } else {
+            // two claimants for the unbound end
+            self.push(ta, Op::Unbind { ch, end: oth });
+            self.set_end(a, ch, oth, GEnd::None);
+            let k = self.unbound[oth as usize] as u8;
+            self.unbound[oth as usize] += 1;
+            for _ in 0..2 {
+                let c = self.client();
+                let tc = self.task(c);
+                let chc = self.t.below(NCH) as u8;
+                self.push(tc, Op::Bind { ch: chc, end: oth, k });
+                self.push(tc, Op::Claim { ch: chc, end: oth, cap });
             }
         }
-        Op::CreateChannel { ch: ch as u8, claim, cap }
     }
 
-    fn ends_in(&self, ci: usize, want: &[GEnd]) -> Vec<(u8, End)> {
-        let mut v = vec![];
-        for ch in 0..NCH {
-            if want.contains(&self.cl[ci].snd[ch]) {
-                v.push((ch as u8, End::Snd));
-            }
-            if want.contains(&self.cl[ci].rcv[ch]) {
-                v.push((ch as u8, End::Rcv));
-            }
-        }
-        v
-    }
+    // ---- channels ---------------------------------------------------------------------------
 
     fn set_end(&mut self, ci: usize, ch: u8, end: End, st: GEnd) {
         match end {
@@ -545,209 +804,241 @@ impl Gen<'_, '_> {
         }
     }
 
-    fn channels(&mut self, ci: usize, allow_refused: bool) -> Op {
-        match self.t.weighted(&[16, 12, 16, 12, 8, 12, 12, 4, 8]) {
-            0 => self.create_channel(ci),
-            1 => {
-                let v = self.ends_in(ci, &[GEnd::Unclaimed]);
-                if v.is_empty() {
-                    return self.create_channel(ci);
-                }
-                let (ch, end) = v[self.t.below(v.len())];
-                self.set_end(ci, ch, end, GEnd::None);
-                self.unbound[end as usize] += 1;
-                Op::Unbind { ch, end }
+    fn frag_channel(&mut self) {
+        let a = self.client();
+        let ta = self.task(a);
+        let ch = self.t.below(NCH) as u8;
+        let claim = self.end();
+        let cap = self.t.below(CAPS.len()) as u8;
+        let oth = other(claim);
+        self.push(ta, Op::CreateChannel { ch, claim, cap });
+        self.set_end(a, ch, claim, GEnd::Pending);
+        self.set_end(a, ch, oth, GEnd::Unclaimed);
+        // where does the other end go?
+        let (b, chb, tb);
+        if self.t.weighted(&[4, 1]) == 0 {
+            self.push(ta, Op::Unbind { ch, end: oth });
+            self.set_end(a, ch, oth, GEnd::None);
+            let k = self.unbound[oth as usize] as u8;
+            self.unbound[oth as usize] += 1;
+            b = self.client_other_than(a);
+            tb = self.task(b);
+            chb = if b == a { ch } else { self.t.below(NCH) as u8 };
+            let cap2 = self.t.below(CAPS.len()) as u8;
+            self.push(tb, Op::Bind { ch: chb, end: oth, k });
+            self.push(tb, Op::Claim { ch: chb, end: oth, cap: cap2 });
+            self.set_end(b, chb, oth, GEnd::Est);
+            if self.t.chance(56) {
+                // a second claimant for the same end
+                let c = self.client();
+                let tc = self.task(c);
+                let chc = self.t.below(NCH) as u8;
+                self.push(tc, Op::Bind { ch: chc, end: oth, k });
+                self.push(tc, Op::Claim { ch: chc, end: oth, cap: cap2 });
             }
-            2 => {
-                // bind an unbound end here (possibly a second time elsewhere: two claimants)
-                let end = self.end();
-                let end = if self.unbound[end as usize] > 0 {
-                    end
-                } else if self.unbound[1 - end as usize] > 0 {
-                    if end == End::Snd {
-                        End::Rcv
-                    } else {
-                        End::Snd
-                    }
-                } else {
-                    return self.create_channel(ci);
-                };
-                let n = self.unbound[end as usize];
-                // newest first: zero picks the most recently unbound end
-                let k = (n - 1 - self.t.below(n)) as u8;
-                let ch = self.t.below(NCH) as u8;
-                self.set_end(ci, ch, end, GEnd::Unclaimed);
-                let _ = allow_refused;
-                Op::Bind { ch, end, k }
-            }
-            3 => {
-                let v = self.ends_in(ci, &[GEnd::Unclaimed]);
-                if v.is_empty() {
-                    return self.create_channel(ci);
-                }
-                let (ch, end) = v[self.t.below(v.len())];
-                self.set_end(ci, ch, end, GEnd::Est);
-                Op::Claim { ch, end, cap: self.t.below(CAPS.len()) as u8 }
-            }
-            4 => {
-                let v = self.ends_in(ci, &[GEnd::Pending]);
-                if v.is_empty() {
-                    return self.create_channel(ci);
-                }
-                let (ch, end) = v[self.t.below(v.len())];
-                self.set_end(ci, ch, end, GEnd::Est);
-                Op::Establish { ch, end }
-            }
-            5 => {
-                let v: Vec<u8> = (0..NCH).filter(|&c| matches!(self.cl[ci].snd[c], GEnd::Est | GEnd::Pending)).map(|c| c as u8).collect();
-                if v.is_empty() {
-                    return self.create_channel(ci);
-                }
-                Op::Send { ch: v[self.t.below(v.len())], n: 1 + self.t.below(20) as u8 }
-            }
-            6 => {
-                let v: Vec<u8> = (0..NCH).filter(|&c| matches!(self.cl[ci].rcv[c], GEnd::Est | GEnd::Pending)).map(|c| c as u8).collect();
-                if v.is_empty() {
-                    return self.create_channel(ci);
-                }
-                Op::Recv { ch: v[self.t.below(v.len())], n: 1 + self.t.below(20) as u8, wait: self.t.bool() }
-            }
-            7 => {
-                let v = self.ends_in(ci, &[GEnd::Unclaimed, GEnd::Pending, GEnd::Est]);
-                if v.is_empty() {
-                    return self.create_channel(ci);
-                }
-                let (ch, end) = v[self.t.below(v.len())];
-                Op::CloseEnd { ch, end }
-            }
-            _ => {
-                let v = self.ends_in(ci, &[GEnd::Unclaimed, GEnd::Pending, GEnd::Est]);
-                if v.is_empty() {
-                    return self.create_channel(ci);
-                }
-                let (ch, end) = v[self.t.below(v.len())];
-                self.set_end(ci, ch, end, GEnd::None);
-                Op::DropEnd { ch, end }
+        } else {
+            b = a;
+            chb = ch;
+            tb = self.task(a);
+            let cap2 = self.t.below(CAPS.len()) as u8;
+            self.push(tb, Op::Claim { ch, end: oth, cap: cap2 });
+            self.set_end(a, ch, oth, GEnd::Est);
+        }
+        let ta2 = if self.t.bool() { self.task(a) } else { ta };
+        self.push(ta2, Op::Establish { ch, end: claim });
+        self.set_end(a, ch, claim, GEnd::Est);
+        // producer and consumer
+        let (sc, sch, st, rc, rch, rt) = if claim == End::Snd { (a, ch, ta2, b, chb, tb) } else { (b, chb, tb, a, ch, ta2) };
+        let n = match self.t.below(4) {
+            0 => 1 + self.t.below(3),
+            1 => 4 + self.t.below(6),
+            _ => 6 + self.t.below(30),
+        } as u8;
+        let st2 = if self.t.bool() { self.task(sc) } else { st };
+        self.push(st2, Op::Send { ch: sch, n });
+        let m = match self.t.below(3) {
+            0 => n,
+            1 => 1 + self.t.below(n as usize) as u8,
+            _ => n.saturating_add(2),
+        };
+        let wait = self.t.weighted(&[1, 3]) == 1;
+        let rt2 = if self.t.bool() { self.task(rc) } else { rt };
+        self.push(rt2, Op::Recv { ch: rch, n: m, wait });
+        // endings
+        for _ in 0..self.t.below(3) {
+            let (c, chx, e) = if self.t.bool() { (sc, sch, End::Snd) } else { (rc, rch, End::Rcv) };
+            let tx = self.task(c);
+            if self.t.bool() {
+                self.push(tx, Op::CloseEnd { ch: chx, end: e });
+            } else {
+                self.set_end(c, chx, e, GEnd::None);
+                self.push(tx, Op::DropEnd { ch: chx, end: e });
             }
         }
     }
 
-    fn listeners(&mut self, ci: usize) -> Op {
-        let have: Vec<u8> = (0..NLIS).filter(|&l| self.cl[ci].lis[l] > 0).map(|l| l as u8).collect();
-        if have.is_empty() {
-            let l = self.t.below(NLIS) as u8;
-            self.cl[ci].lis[l as usize] = 1;
-            return Op::CreateListener { l };
+    // ---- listeners, discoverers, lifetimes ----------------------------------------------------
+
+    fn frag_listener(&mut self) {
+        let a = self.client();
+        let ta = self.task(a);
+        let l = self.t.below(NLIS) as u8;
+        if self.cl[a].lis[l as usize] == 0 || self.t.chance(64) {
+            self.push(ta, Op::CreateListener { l });
+            self.cl[a].lis[l as usize] = 1;
         }
-        let l = have[self.t.below(have.len())];
-        match self.t.weighted(&[8, 30, 8, 4, 22, 8, 12, 3, 5]) {
-            0 => {
-                let l = self.t.below(NLIS) as u8;
-                self.cl[ci].lis[l as usize] = 1;
-                Op::CreateListener { l }
-            }
-            1 => Op::AddFilter { l, f: self.filter() },
-            2 => Op::RemoveFilter { l, f: self.filter() },
-            3 => Op::ClearFilters { l },
-            4 => {
-                self.cl[ci].lis[l as usize] = 2;
-                Op::StartListener { l, scope: self.scope() }
-            }
-            5 => Op::StopListener { l },
-            6 => Op::ListenerNext { l, n: 1 + self.t.below(4) as u8, wait: self.t.bool() },
-            7 => Op::DestroyListener { l },
-            _ => {
-                self.cl[ci].lis[l as usize] = 0;
-                Op::DropListener { l }
-            }
+        for _ in 0..1 + self.t.below(3) {
+            let f = self.filter();
+            self.push(ta, Op::AddFilter { l, f });
+        }
+        let scope = self.scope();
+        self.push(ta, Op::StartListener { l, scope });
+        self.cl[a].lis[l as usize] = 2;
+        for _ in 0..self.t.below(4) {
+            let tx = if self.t.bool() { self.task(a) } else { ta };
+            let op = match self.t.weighted(&[30, 10, 8, 4, 10, 4, 6]) {
+                0 => Op::ListenerNext { l, n: 1 + self.t.below(4) as u8, wait: self.t.weighted(&[2, 1]) == 1 },
+                1 => Op::StopListener { l },
+                2 => Op::RemoveFilter { l, f: self.filter() },
+                3 => Op::ClearFilters { l },
+                4 => Op::StartListener { l, scope: self.scope() },
+                5 => Op::DestroyListener { l },
+                _ => {
+                    self.cl[a].lis[l as usize] = 0;
+                    Op::DropListener { l }
+                }
+            };
+            self.push(tx, op);
         }
     }
 
-    fn discovery(&mut self, ci: usize) -> Op {
-        match self.t.weighted(&[20, 14, 8, 6, 10, 5, 12, 5, 4, 10, 4, 4]) {
+    fn frag_discovery(&mut self) {
+        let a = self.client();
+        let ta = self.task(a);
+        match self.t.weighted(&[6, 2, 1]) {
             0 => {
                 let d = self.t.below(NDISC) as u8;
                 let n = 1 + self.t.below(3);
                 let entries = (0..n).map(|_| self.entry()).collect();
-                self.cl[ci].disc[d as usize] = true;
-                Op::CreateDiscoverer { d, entries, current_only: self.t.chance(64) }
+                let current_only = self.t.chance(64);
+                self.cl[a].disc[d as usize] = true;
+                self.push(ta, Op::CreateDiscoverer { d, entries, current_only });
+                for _ in 0..self.t.below(4) {
+                    let tx = if self.t.bool() { self.task(a) } else { ta };
+                    let op = match self.t.weighted(&[6, 2, 1]) {
+                        0 => Op::DiscNext { d, n: 1 + self.t.below(3) as u8, wait: self.t.weighted(&[2, 1]) == 1 },
+                        1 => Op::RestartDiscoverer { d, current_only: self.t.chance(64) },
+                        _ => {
+                            self.cl[a].disc[d as usize] = false;
+                            Op::DropDiscoverer { d }
+                        }
+                    };
+                    self.push(tx, op);
+                }
             }
-            1 => match pick_true(self.t, &self.cl[ci].disc.clone()) {
-                Some(d) => Op::DiscNext { d, n: 1 + self.t.below(3) as u8, wait: self.t.bool() },
-                None => self.misc(ci),
-            },
-            2 => match pick_true(self.t, &self.cl[ci].disc.clone()) {
-                Some(d) => Op::RestartDiscoverer { d, current_only: self.t.chance(64) },
-                None => self.misc(ci),
-            },
-            3 => match pick_true(self.t, &self.cl[ci].disc.clone()) {
-                Some(d) => {
-                    self.cl[ci].disc[d as usize] = false;
-                    Op::DropDiscoverer { d }
-                }
-                None => self.misc(ci),
-            },
-            4 => Op::FindObject { e: self.entry() },
-            5 => Op::WaitForObject { e: self.entry() },
-            6 => {
-                let sc = self.t.below(NSCOPE) as u8;
-                self.cl[ci].scope[sc as usize] = true;
-                self.scopes += 1;
-                Op::CreateScope { sc }
+            1 => {
+                let e = self.entry();
+                self.push(ta, Op::FindObject { e });
             }
-            7 => match pick_true(self.t, &self.cl[ci].scope.clone()) {
-                Some(sc) => Op::EndScope { sc },
-                None => self.misc(ci),
-            },
-            8 => match pick_true(self.t, &self.cl[ci].scope.clone()) {
-                Some(sc) => {
-                    self.cl[ci].scope[sc as usize] = false;
-                    Op::DropScope { sc }
-                }
-                None => self.misc(ci),
-            },
-            9 => {
-                if self.scopes == 0 {
-                    return self.misc(ci);
-                }
-                let lt = self.t.below(NLT) as u8;
-                self.cl[ci].lt[lt as usize] = true;
-                let k = (self.scopes - 1 - self.t.below(self.scopes)) as u8;
-                Op::CreateLifetime { lt, k }
+            _ => {
+                let e = self.entry();
+                let tx = self.task_other(a, ta);
+                self.push(tx, Op::WaitForObject { e });
             }
-            10 => match pick_true(self.t, &self.cl[ci].lt.clone()) {
-                Some(lt) => Op::LifetimeEnded { lt },
-                None => self.misc(ci),
-            },
-            _ => match pick_true(self.t, &self.cl[ci].lt.clone()) {
-                Some(lt) => {
-                    self.cl[ci].lt[lt as usize] = false;
-                    Op::DropLifetime { lt }
-                }
-                None => self.misc(ci),
-            },
         }
     }
 
-    fn misc(&mut self, ci: usize) -> Op {
-        let _ = self.cl[ci].proto;
-        match self.t.weighted(&[30, 25, 20, 10, 10, 3]) {
+    fn frag_lifetime(&mut self) {
+        let a = self.client();
+        let ta = self.task(a);
+        let sc = self.t.below(NSCOPE) as u8;
+        self.cl[a].scope[sc as usize] = true;
+        let k = self.scopes as u8;
+        self.push(ta, Op::CreateScope { sc });
+        self.scopes += 1;
+        let b = self.client();
+        let tb = self.task(b);
+        let lt = self.t.below(NLT) as u8;
+        self.cl[b].lt[lt as usize] = true;
+        self.push(tb, Op::CreateLifetime { lt, k });
+        if self.t.bool() {
+            let tx = self.task_other(b, tb);
+            self.push(tx, Op::LifetimeEnded { lt });
+        }
+        let ta2 = if self.t.bool() { self.task(a) } else { ta };
+        match self.t.weighted(&[3, 3, 2]) {
+            0 => self.push(ta2, Op::EndScope { sc }),
+            1 => {
+                self.cl[a].scope[sc as usize] = false;
+                self.push(ta2, Op::DropScope { sc });
+            }
+            _ => {}
+        }
+        if self.t.chance(64) {
+            self.cl[b].lt[lt as usize] = false;
+            self.push(tb, Op::DropLifetime { lt });
+        }
+    }
+
+    fn frag_misc(&mut self) {
+        let a = self.client();
+        let ta = self.task(a);
+        let op = match self.t.weighted(&[30, 25, 20, 10, 10, 4]) {
             0 => Op::SyncBroker,
             1 => Op::SyncClient,
             2 => Op::Yield(1 + self.t.below(4) as u8),
             3 => {
-                self.cl[ci].extra += 1;
+                self.cl[a].extra += 1;
                 Op::CloneHandle
             }
             4 => {
-                if self.cl[ci].extra > 0 {
-                    self.cl[ci].extra -= 1;
+                if self.cl[a].extra > 0 {
+                    self.cl[a].extra -= 1;
                     Op::DropExtraHandle
                 } else {
                     Op::SyncClient
                 }
             }
             _ => Op::Shutdown,
+        };
+        self.push(ta, op);
+    }
+
+    /// One free-standing operation on whatever the client probably has.
+    fn frag_noise(&mut self) {
+        let a = self.client();
+        let ta = self.task(a);
+        let svcs = self.cl[a].svc;
+        let proxies: Vec<bool> = self.cl[a].proxy.iter().map(|p| p.is_some()).collect();
+        let op = match self.t.weighted(&[10, 10, 10, 10, 10, 10, 10, 10]) {
+            0 => pick_true(self.t, &svcs).map(|s| Op::Emit { s, ev: 0 }),
+            1 => pick_true(self.t, &proxies).map(|p| Op::Call { p, f: 0, mode: CallMode::Await }),
+            2 => pick_true(self.t, &proxies).map(|p| Op::NextEvent { p, n: 2, wait: false }),
+            3 => {
+                let ch = self.t.below(NCH) as u8;
+                Some(Op::Send { ch, n: 1 + self.t.below(8) as u8 })
+            }
+            4 => {
+                let ch = self.t.below(NCH) as u8;
+                Some(Op::Recv { ch, n: 1 + self.t.below(8) as u8, wait: false })
+            }
+            5 => {
+                let ch = self.t.below(NCH) as u8;
+                let end = self.end();
+                Some(Op::DropEnd { ch, end })
+            }
+            6 => {
+                let ch = self.t.below(NCH) as u8;
+                let end = self.end();
+                Some(Op::CloseEnd { ch, end })
+            }
+            _ => {
+                let l = self.t.below(NLIS) as u8;
+                Some(Op::ListenerNext { l, n: 2, wait: false })
+            }
+        };
+        if let Some(op) = op {
+            self.push(ta, op);
         }
     }
 }
@@ -755,12 +1046,14 @@ impl Gen<'_, '_> {
 pub fn render_program(p: &Program) -> String {
     let mut s = String::new();
     s.push_str(&format!(
-        "det_seed={} sched_seed={} policy={:?} idle_early={} refused_claims={}\n",
+        "det_seed={} sched_seed={} policy={:?} idle_early={} refused_claims={} late_abort={} listener_after_destroy={}\n",
         p.det_seed,
         p.sched_seed,
         simbus::Policy::from_u8(p.policy),
         p.idle_early,
-        p.allow_refused_claims
+        p.allow_refused_claims,
+        p.allow_late_abort,
+        p.allow_listener_after_destroy
     ));
     for (i, c) in p.clients.iter().enumerate() {
         s.push_str(&format!("client c{}: {:?} {:?} final={:?}\n", i, c.proto, c.tkind, c.final_mode));
